@@ -13,7 +13,7 @@ NOCACHE = "no-cache, no-store, max-age=0, must-revalidate"
 class C14(Prop):
     pid = "C14"
     props_file = "Props/C14.v"
-    model_targets = ["theories/Banner/BannerCheck.vo"]
+    model_targets = ["theories/Banner/BannerCheck.vo", "theories/Banner/Writer.vo"]
     technique = "Coq proofs for the body splice (all bodies, all first-read lengths: unchanged or script inserted once right after the first <head> of the whole body) and for the banner decision and header edits + handler-level differential run (feature on vs the backend's own response) with scripted read segmentation"
     level_text = ("C14_shim_splice / C14_replace_first prove for every body, every length of the first read and every script that the output is the body itself or the body with the script inserted exactly once immediately after the first <head> of the whole body. "
                   "C14_banner_only_html / C14_banner_marks prove that the banner changes a response only for GET + Accept containing text/html + 200 + HTML type + no attachment, that an already framed request keeps the original body, and which header fields are set (all others unchanged). "
@@ -151,7 +151,24 @@ class C14(Prop):
             for i in C.parse_z_list(txt):
                 kind, r = rows[s0 + i]
                 mism.append(("BannerCheck.%s_case_ok" % kind, "observed %s outcome differs from the model's" % kind, {k: v for k, v in r.items() if k not in ("body_hex",)}))
-        return mism, len(items), {"coqc_s": round(dt_all, 2), "cases": len(items)}
+        # the response writer on the calls ReverseProxy makes (informational responses, final header, body): Banner/Writer.v
+        witems, wrows = [], []
+        for r in obs.get("interim") or []:
+            bk = r["backend"]
+            if r.get("err"):
+                continue
+            dec = 2 if (bk["status"] == 200 and ("text/html" in bk["content_type"] or "application/xhtml+xml" in bk["content_type"])) else 0
+            kind = 1 if r.get("body_has_banner") else 0
+            if not r.get("body_has_banner") and not r.get("body_is_backends"):
+                kind = 7   # neither the frame page nor the backend's bytes
+            witems.append("writer_case %d %s %d (Z.to_nat %d) %d %d" % (dec, C.llit(str(c) for c in (bk.get("interim") or [])), bk["status"], len(bk.get("body") or ""), r["status"], kind))
+            wrows.append(r)
+        bad, wdt = C.eval_code_items(ctx.work, "cases_c14_writer", ["From Coq Require Import ZArith List Bool.", "From IP Require Import Banner.Banner Banner.Writer Lib.Util.", "Import ListNotations.", "Open Scope Z_scope."], witems)
+        if bad is None:
+            return [("cases_c14_writer.v (model evaluation)", "coqc failed: " + wdt[-600:], {})], len(items), {}
+        for idx, code in bad:
+            mism.append(("Writer.writer_case", "through the real chain the client received %s than the response writer model gives" % ("another status" if code == 1 else "another body (frame page / the backend's bytes)"), wrows[idx]))
+        return mism, len(items) + len(witems), {"coqc_s": round(dt_all + wdt, 2), "cases": len(items), "writer_cases": len(witems)}
 
     def coverage(self, ctx, obs):
         hist = collections.Counter()
